@@ -3,7 +3,9 @@
 From Coq Require Import ZArith NArith List Bool Arith.
 From Falcon.lib Require Import PyStr.
 From Falcon.C14 Require Import Spec.
-From Falcon.C13 Require Import Model Spec ProofsRoundtrip ProofsNoCrash ProofsOracle.
+From Falcon.C14 Require Import Model ModelAsync.
+From Falcon.C13 Require Import Model ModelReaders Spec ProofsRoundtrip ProofsNoCrash ProofsOracle
+  ProofsChunkingSync ProofsChunkingAsync.
 Import ListNotations.
 Local Open Scope nat_scope.
 
@@ -55,6 +57,45 @@ Theorem C13_limits_buffer_exact : forall cs c b pre epi fin p script,
      = ([obs_skip p], Failed ETooLarge)).
 Proof. exact limits_buffer_exact. Qed.
 Print Assumptions C13_limits_buffer_exact.
+
+(* INDEPENDENCE OF THE TRANSPORT CHUNKING: C14's refinement theorems composed with the above.
+   [parse_form_sync] / [parse_form_async] (ModelReaders.v) are the same parser loop running on
+   the MODELLED BUFFERED READERS of C14 exactly as the real code does (the part stream is
+   stream.delimit(delimiter), the application acts on that child reader, the parent continues
+   from wherever the child's read-ahead left it).  For EVERY body (valid or not), every
+   short-read schedule of the source and every chunk size >= boundary length + 4, the result
+   is the one computed over the flat cursor ... *)
+Theorem C13_multipart_chunking_independent : forall cs c b script body sched,
+  4 <= cs -> 1 <= length b -> length b + 4 <= cs ->
+  parse_form_sync cs c b script body sched = parse_form cs c b script body.
+Proof. exact multipart_chunking_independent_sync. Qed.
+Print Assumptions C13_multipart_chunking_independent.
+
+(* ... hence for encoded forms exactly the encoded parts / limit errors, through the reader *)
+Theorem C13_multipart_roundtrip_through_sync_reader : forall cs c b pre epi fin ps script sched,
+  wf_form cs b pre ps = true ->
+  parse_form_sync cs c b script (encode_form ps b pre epi fin) sched = expected_run cs c 0 ps script.
+Proof. exact multipart_roundtrip_sync. Qed.
+Print Assumptions C13_multipart_roundtrip_through_sync_reader.
+
+(* the same through the async reader, for every way the transport chunks the body (incl. empty
+   and 1-byte chunks).  [F] is the loop fuel of the async reader model (>= #chunks + 6).
+   script_ok is needed here: read_until(invalid delimiter, 0) returns b'' in the async reader
+   (the generator that validates the delimiter is never started) but is a ValueError on the
+   cursor -- Example script_ok_needed in ProofsChunkingAsync.v. *)
+Theorem C13_multipart_chunking_independent_async : forall cs F c b script chunks,
+  4 <= cs -> 1 <= length b -> length b + 4 <= cs -> length chunks + 6 <= F ->
+  script_ok cs script = true ->
+  parse_form_async cs F c b script chunks = parse_form cs c b script (concat chunks).
+Proof. exact multipart_chunking_independent_async. Qed.
+Print Assumptions C13_multipart_chunking_independent_async.
+
+Theorem C13_multipart_roundtrip_through_async_reader : forall cs F c b pre epi fin ps script chunks,
+  wf_form cs b pre ps = true -> concat chunks = encode_form ps b pre epi fin ->
+  length chunks + 6 <= F -> script_ok cs script = true ->
+  parse_form_async cs F c b script chunks = expected_run cs c 0 ps script.
+Proof. exact multipart_roundtrip_async. Qed.
+Print Assumptions C13_multipart_roundtrip_through_async_reader.
 
 (* INVALID STRUCTURE.  For EVERY byte string as body (valid, corrupted, truncated, garbage),
    every boundary, every limit setting and every consumption script with valid read_until
